@@ -339,3 +339,50 @@ proof fn lemma_wf_shapes<I: Identifier>(t: ValueType<I>)
 	ensures has_elem(t) ==> elem_ok(elem(t)),
 		is_ptrlike(t) ==> !(deref(t) is Void || deref(t) is Slice || deref(t) is SlicePointer || deref(t) is View),
 { }
+
+// ---- unification relations used by the typer (C07: they must never relate two different primitive types) ----
+// like(a, b): b is a with array forms along the element spine generalised to "some array-like"; otherwise EXACTLY equal
+// (derived equality teq - in particular NOT modulo the char8/u8 alias)
+pub open spec fn like<I: Identifier>(a: ValueType<I>, b: ValueType<I>) -> bool
+	decreases a
+{
+	if (a is Array || a is ArrayWithNamedLength || a is EndlessArray) && b is Arraylike { like(elem(a), elem(b)) } else { teq(a, b) }
+}
+pub open spec fn declared_as<I: Identifier>(a: ValueType<I>, b: ValueType<I>) -> bool {
+	if (a is Array || a is ArrayWithNamedLength || a is Slice) && b is Arraylike { teq(elem(a), elem(b)) }
+	else if a is SlicePointer && b is Pointer { deref(b) is Arraylike && teq(elem(a), elem(deref(b))) }
+	else { teq(a, b) }
+}
+pub open spec fn concretizes<I: Identifier>(a: ValueType<I>, b: ValueType<I>) -> bool
+	decreases a
+{
+	match a {
+		ValueType::Array { element_type, length } =>
+			if b is Array { length == b->Array_length && concretizes(*element_type, elem(b)) } else { like(a, b) },
+		ValueType::ArrayWithNamedLength { element_type, named_length } =>
+			if b is ArrayWithNamedLength { named_length.eq_spec(&b->ArrayWithNamedLength_named_length) && concretizes(*element_type, elem(b)) } else { like(a, b) },
+		ValueType::Slice { element_type } =>
+			if b is Slice { concretizes(*element_type, elem(b)) } else if b is Arraylike { like(*element_type, elem(b)) } else { teq(a, b) },
+		ValueType::SlicePointer { element_type } =>
+			if b is SlicePointer { concretizes(*element_type, elem(b)) }
+			else if b is Arraylike { like(*element_type, elem(b)) }
+			else if b is Pointer { if deref(b) is Arraylike { like(*element_type, elem(deref(b))) } else { teq(a, b) } }
+			else { teq(a, b) },
+		ValueType::EndlessArray { element_type } =>
+			if b is EndlessArray { concretizes(*element_type, elem(b)) } else { like(a, b) },
+		ValueType::Arraylike { element_type } =>
+			if b is Arraylike { concretizes(*element_type, elem(b)) } else { teq(a, b) },
+		ValueType::Struct { identifier } =>
+			if b is UnresolvedStructOrWord { b->UnresolvedStructOrWord_identifier is None || identifier.eq_spec(&b->UnresolvedStructOrWord_identifier->0) } else { teq(a, b) },
+		ValueType::Word { identifier, .. } =>
+			if b is UnresolvedStructOrWord { b->UnresolvedStructOrWord_identifier is None || identifier.eq_spec(&b->UnresolvedStructOrWord_identifier->0) } else { teq(a, b) },
+		ValueType::View { deref_type } => if b is View { concretizes(*deref_type, deref(b)) } else { teq(a, b) },
+		ValueType::Pointer { deref_type } => if b is Pointer { concretizes(*deref_type, deref(b)) } else { teq(a, b) },
+		_ => teq(a, b),
+	}
+}
+// the unification relations never identify two different leaf (primitive / nominal) types - no char8/u8 aliasing here
+proof fn lemma_like_leaf_exact<I: Identifier>(a: ValueType<I>, b: ValueType<I>)
+	requires like(a, b), is_leaf(a) || is_ptrlike(a)
+	ensures teq(a, b)
+{ }
